@@ -119,7 +119,7 @@ func main() {
 	out := vlib.NewOut(a, "From V Require Import Corr.Run_C04.", "case", 40)
 	rng := vlib.NewRand(a.Seed)
 
-	nGen, nFlag, nMut, nLines := 140, 8, 60, 14
+	nGen, nFlag, nMut, nLines := 140, 6, 60, 14
 	if a.Thorough() {
 		nGen, nFlag, nMut, nLines = 600, 20, 300, 24
 	}
@@ -151,7 +151,7 @@ func main() {
 	}
 	// 2. flagged stream: exactly one known construct each
 	for i := 0; i < nFlag; i++ {
-		for _, fl := range []string{"settime-len", "mixed-assign", "float-cond"} {
+		for _, fl := range []string{"settime-len", "mixed-assign", "float-cond", "not-bool"} {
 			progs = append(progs, prog{stream: "flag:" + fl, name: fmt.Sprintf("flag_%s_%d", fl, i),
 				src: genProgram(rng.Fork(), fl), expect: "MustReject"})
 		}
@@ -180,6 +180,16 @@ func main() {
 			out.Count("compile-error/" + p.stream)
 		}
 	}
+	for _, n := range opNames {
+		if _, ok := opExec[n]; !ok {
+			opExec[n] = 0
+		}
+		if _, ok := opStatic[n]; !ok {
+			opStatic[n] = 0
+		}
+	}
+	out.Extra["opcode_executed"] = opExec
+	out.Extra["opcode_emitted"] = opStatic
 	out.Extra["programs"] = len(progs)
 	out.Extra["programs_rejected_by_compiler"] = rejected
 	out.Flush("a case is a compiled program with its lines; non-trivial when at least one line executed a store-changing "+
